@@ -325,8 +325,36 @@ def own_addrs(binding, endpoints="both"):
     return {"post": [S.SP_ACS_POST], "redirect": [S.SP_ACS_REDIRECT]}.get(binding, [])
 
 
+import contextlib
+import time as _time_mod
+
+
+@contextlib.contextmanager
+def _timezone(tz):
+    """Run the receiver under another process time zone (all SAML times are UTC: the zone must not matter)."""
+    if not tz:
+        yield
+        return
+    old = os.environ.get("TZ")
+    os.environ["TZ"] = tz
+    _time_mod.tzset()
+    try:
+        yield
+    finally:
+        if old is None:
+            os.environ.pop("TZ", None)
+        else:
+            os.environ["TZ"] = old
+        _time_mod.tzset()
+
+
 def run_sp(case):
     """case: {cfg, env, resp, syntax?} -> canonical outcome of the REAL service provider."""
+    with _timezone(case["env"].get("tz")):
+        return _run_sp(case)
+
+
+def _run_sp(case):
     sp = sp_for(case["cfg"])
     env = case["env"]
     xml = render_response(case["resp"], case.get("syntax", "z"))
